@@ -29,7 +29,7 @@ TIERS = {
     "quick": {"worlds": 8000, "wall": 500, "shrink_budget": 60,
               "required_probes": ["c07.run_completed", "c07.vector_payoff", "c07.with_controls", "c07.pool_run",
                                   "c07.cv_mean_equals_price", "c07.engine_reused", "c07.error_queried_before_price"]},
-    "thorough": {"worlds": 60000, "wall": 3300, "shrink_budget": 150,
+    "thorough": {"worlds": 60000, "wall": 2900, "shrink_budget": 150,
                  "required_probes": ["c07.run_completed", "c07.vector_payoff", "c07.with_controls", "c07.pool_run",
                                      "c07.cv_mean_equals_price", "pool.n_lt_W", "c07.n_equals_1"]},
 }
@@ -89,6 +89,10 @@ def generate(seed, tier="quick"):
         sc["env"]["task_fail_one_in"] = r.choice([1, 2])
     # history of READS of one statistics object: which accessor the caller uses first
     sc["query_order"] = r.choice(["price_first", "price_first", "error_first"])
+    # the engine / configuration / control-variates objects have priced ANOTHER product before, one whose underlying is
+    # of the type of one of the controls (so that the control's value was implied from the payoff underlying then)
+    sc["warm_product"] = "logspot" if (warm_n is not None and len(payoff["strikes"]) == 1
+                                        and any(c["kind"] == "logfwd" for c in controls) and r.random() < 0.6) else None
     return sc
 
 
@@ -220,7 +224,14 @@ def execute(wd, sc):
         if warm_n:
             # history: the same engine object has priced before, with another number of paths
             cfg.mc_paths = warm_n
-            eng.price(product)
+            if sc.get("warm_product") == "logspot":
+                from rpylib.product.underlying import LogSpot as _LS
+                from rpylib.product.payoff import Forward as _F
+
+                eng.price(Product(payoff_underlying=_LS(), payoff=_F(strike=float(np.log(x0))), maturity=sc["maturity"]))
+                wd.probes["c07.engine_priced_a_product_on_another_underlying_before"] += 1
+            else:
+                eng.price(product)
             cfg.mc_paths = n
             wd.faults["history.engine_reused"] += 1
             wd.probes["c07.engine_reused"] += 1
